@@ -193,6 +193,11 @@ def sharing_family():
     progs.append(("std", "mapWithIndex", [("fun", [("i", None), ("x", None)], V("i")), ("arr", [el(1), el(2)])], 9009))
     progs.append(("len", ("std", "filterMap", [("fun", [("x", None)], ("bool", True)), ("fun", [("x", None)], N(1)),
                                                ("arr", [el(1), el(2)])], 9010)))
+    # a57b880: std.filter / std.filterMap hand the element thunks to the predicate, no eager pre-pass
+    progs.append(("len", ("std", "filter", [("fun", [("x", None)], ("bool", True)), ("arr", [el(1), el(2)])], 9011)))
+    progs.append(("index", ("std", "filter", [("fun", [("x", None)], ("bool", True)), ("arr", [el(1), el(2)])], 9012), N(1)))
+    progs.append(("index", ("std", "filterMap", [("fun", [("x", None)], ("bool", True)), ("fun", [("x", None)], V("x")),
+                                                 ("arr", [el(1), el(2)])], 9013), N(0)))
     # an object local read by assertions and by fields (and by both layers' assertions): one evaluation
     for nas in (1, 2):
         for nf in (1, 2):
